@@ -7,6 +7,20 @@ Definition run_chain (ch : list (list N * list N)) (s : list N) : list N :=
   fold_left (fun acc pr => replace acc (fst pr) (snd pr)) ch s.
 Definition encode_uri := run_chain enc_chain.
 Definition decode_uri := run_chain dec_chain.
+(* the codes the decoder handles AFTER percent-2-5 (its 8th step): a literal percent sign followed by such a code does not survive (C17-F1) *)
+Definition late_codes : list (list N) := map fst (skipn 8 dec_chain).
+Definition early_codes : list (list N) := map fst (firstn 8 dec_chain).
+(* the original string holds a percent sign followed by a, b *)
+Fixpoint has_pat (a b : N) (s : list N) : bool :=
+  match s with
+  | [] => false
+  | c :: r => (N.eqb c 37 && match r with x :: y :: _ => N.eqb x a && N.eqb y b | _ => false end) || has_pat a b r
+  end.
+
+(* the listed class C17-F1, on the original string: a percent sign followed by a late code *)
+Definition in_F1 (s : list N) : bool :=
+  existsb (fun code => match code with [_; a; b] => has_pat a b s | _ => false end) late_codes.
+
 (* HashMap as an association list; insert overwrites *)
 Fixpoint insert (k v : list N) (m : list (list N * list N)) : list (list N * list N) :=
   match m with
